@@ -29,7 +29,7 @@ func (c18) Cases(tier string) int {
 }
 
 func (c18) Rule() string {
-	return "multipart requests (single and batch) over a fixed variable tree with nulls at the top level, in lists, in nested objects, in objects inside lists and in nested lists; 1-2 files each mapped to 1-2 paths drawn from valid positions and from a catalogue of invalid ones (non-null leaf, through a scalar, missing key, out of range, negative, non-numeric, signed/padded indexes, empty path, missing `variables`, wrong/absent batch index); the request goes through GraphQLHandler with a capturing Executor; the received variables (files shown as markers) or the rejection must equal the Lean model of injectFile applied to the posted variables; non-trivial = at least one path resolves; distinct = distinct (operations, map)"
+	return "multipart requests (single and batch) over a fixed variable tree with nulls at the top level, in lists, in nested objects, in objects inside lists and in nested lists; 1-2 files each mapped to 1-2 paths drawn from valid positions and from a catalogue of invalid ones (non-null leaf, through a scalar, missing key, out of range, negative, non-numeric, signed/padded indexes, empty path, missing `variables`, wrong/absent batch index); the request goes through GraphQLHandler with a capturing Executor; the received variables (files shown as markers) or the rejection must equal the Lean model of injectFile applied to the posted variables; non-trivial = at least one path resolves; distinct = distinct (operations, map); every fourth case a multipart request through the WHOLE gateway to a queryer that nulls the uploads it is handed as the client library does (L0.upload-through: the request's variables still hold the file afterwards), every fourth through a gateway in its default configuration to a service that parses the multipart request the client library sends (L0.upload-net: top-level, list and nested positions)"
 }
 
 // CaptureExec records the variables each operation is executed with.
@@ -75,6 +75,13 @@ func (c18) Run(c *Ctx, i int) CaseResult {
 	res := CaseResult{ID: fmt.Sprintf("gen:%d", i)}
 	b, _ := json.Marshal(hc)
 	res.Key = string(b)
+	if i%4 == 2 {
+		if uf := UploadThroughNet(c.Rand(i + 44000000)); len(uf) > 0 {
+			res.Nontrivial = true
+			res.Fails = uf
+			return res
+		}
+	}
 	if i%4 == 0 {
 		if uf := UploadThroughGateway(c.Rand(i + 43000000)); len(uf) > 0 {
 			res.Nontrivial = true
